@@ -34,8 +34,25 @@ def setup():
 # --------------------------------------------------------------------------------------------------
 # configurations (known_hosts + who is asked) and presented variants
 
+PATHS = ['direct'] * 16 + ['jump', 'jump', 'jump', 'sock']      # + 'proxy' (a subprocess per connect) below
+
+
+def query(cfg):
+    """What the USER asked about: (name, address the target really has for this client or '', port or None).
+    cfg['addr'] is the peer address of a direct connection; for path 'jump' it is the JUMP host's address, which
+    says nothing about the target: a tunnelled connection and a proxy command have no peer address."""
+    path = cfg.get('path', 'direct')
+    addr = cfg['addr'] if path == 'direct' else '127.0.0.1' if path == 'sock' else ''
+    return cfg['alias'] or cfg['host'], addr, None if cfg['port'] == 22 else cfg['port']
+
+
 def gen_config(rng):
     host, addr, port = rng.choice(P.HOSTS), rng.choice(P.ADDRS), rng.choice(P.PORTS)
+    path = 'proxy' if rng.random() < 0.03 else rng.choice(PATHS)
+    if path == 'sock':
+        addr = '127.0.0.1'
+    if rng.random() < 0.08:
+        host = addr                                             # the host given as an IP address
     alias = rng.choice(P.HOSTS) if rng.random() < 0.2 else None
     name = alias or host
     qport = None if port == 22 else port
@@ -43,7 +60,20 @@ def gen_config(rng):
                                                               rng.choice(P.CA_KEYS)])
     return {'host': host, 'addr': addr, 'port': port, 'alias': alias, 'lines': lines,
             'form': 'none' if rng.random() < 0.04 else rng.choice(FORMS),
-            'cb_key': rng.random() < 0.08, 'cb_ca': rng.random() < 0.08}
+            'cb_key': rng.random() < 0.08, 'cb_ca': rng.random() < 0.08,
+            'path': path, 'via_config': rng.random() < 0.15}
+
+
+def config_file(cfg, workdir, tag):
+    """ssh_config carrying Hostname / Port / HostKeyAlias for the nickname, or None"""
+    if not cfg.get('via_config'):
+        return None
+    p = os.path.join(workdir, 'kh_cfg_%s' % tag)
+    with open(p, 'w') as f:
+        f.write('Host %s\n  Hostname %s\n  Port %d\n' % (N.NICK, cfg['host'], cfg['port']))
+        if cfg['alias']:
+            f.write('  HostKeyAlias %s\n' % cfg['alias'])
+    return p
 
 
 def E(marker, field, key):
@@ -114,7 +144,6 @@ def known_hosts_arg(pool, cfg, workdir, tag):
         with open(default, 'w') as f:
             f.write(text)
         return ()
-    name = cfg['alias'] or cfg['host']
     if form == 'bytes':
         return text.encode()
     if form == 'obj':
@@ -136,7 +165,7 @@ def known_hosts_arg(pool, cfg, workdir, tag):
         return tup + ((), (), (), ()) if form == 'tuple7' else tup
     if form == 'callable':
         return lists
-    return lists(name, cfg['addr'], None if cfg['port'] == 22 else cfg['port'])
+    return lists(*query(cfg))
 
 
 def real_lookup(pool, kh, cfg):
@@ -148,8 +177,7 @@ def real_lookup(pool, kh, cfg):
         kh = b''                                        # documented: no default file -> an empty trust set
     elif cfg['form'] == 'default_file':
         kh = os.path.join(os.environ['HOME'], '.ssh', 'known_hosts')
-    res = asyncssh.match_known_hosts(kh, cfg['alias'] or cfg['host'], cfg['addr'],
-                                     None if cfg['port'] == 22 else cfg['port'])
+    res = asyncssh.match_known_hosts(kh, *query(cfg))
     # the client turns the three lists into sets; duplicates (several matching lines) carry no information
     return tuple(sorted({pool.index_of_blob(k.public_data) for k in res[i]}) for i in range(3))
 
@@ -159,7 +187,7 @@ def ref_trust(cfg):
         return None
     if cfg['form'] in EMPTY_FORMS:
         return [], [], []
-    return P.ref_lookup(cfg['lines'], cfg['alias'] or cfg['host'], cfg['addr'], None if cfg['port'] == 22 else cfg['port'])
+    return P.ref_lookup(cfg['lines'], *query(cfg))
 
 
 def coq_trust(tr):
@@ -303,16 +331,16 @@ def stage_cert_validate(ctx, pool):
 # --------------------------------------------------------------------------------------------------
 # stage 2: the decision on a live client connection, many blobs per configuration
 
-async def decide_on_live_client(pool, cfg, kh, blobs_nows):
+async def decide_on_live_client(pool, cfg, kh, blobs_nows, config=None):
     """Bring a real client up to the middle of the key exchange (the Liar does not answer), then call its
     validate_server_host_key for every (blob, now)."""
     import asyncssh
     liar = N.Liar(hostkey_alg=b'ssh-ed25519', auto=True)
     link = N.LiarLink(liar, cfg['addr'], cfg['port'])
     calls = []
-    kw = N.client_kw(kh, cfg['alias'], None, cfg['cb_key'], cfg['cb_ca'], calls)
+    kw = N.client_kw(kh, cfg['alias'], None, cfg['cb_key'], cfg['cb_ca'], calls, config)
     kw['server_host_key_algs'] = ['ssh-ed25519']
-    fut = asyncio.ensure_future(asyncssh.connect(cfg['host'], cfg['port'], tunnel=link, **kw))
+    fut = asyncio.ensure_future(asyncssh.connect(*N.target_args(cfg['host'], cfg['port'], config), tunnel=link, **kw))
     await link.wait_connected(fut)
     await link.settle()
     res = []
